@@ -375,6 +375,24 @@ CLAIMS["C15"] = (
     "decoding of the binary values (C12/C16 cover the readers and the reset), multi-byte connection charsets (GBK-style escapes).",
     "DESIGN.md section 4, C15")
 
+CLAIMS["C03"] = (
+    "handleInsertValues (the batch split per target table) for every VALUES list of any length: by inductive loop invariants with ghost "
+    "witnesses (slot[idx] = ordinal of the statement built for table idx, rowPos[j] = position of row j in its statement, prevRow / lastRow "
+    "= the chain of rows of one table) the function returns without error only if EVERY row's sharding value is a literal, not NULL and "
+    "routable; then statement m is paired with table indexes[m], the tables are pairwise distinct, row j is stored at position rowPos[j] of "
+    "the statement paired with place(value of row j) -- the same place() the point-query routing of C01 uses --, two rows of one table sit "
+    "at different positions, and every statement's rows are exactly the chain 0..len-1 of input rows of its table (no row twice, no foreign "
+    "row). INSERT ... SET: one statement, routed to exactly the table of a literal value; a non-literal value leaves the route untouched "
+    "(so the statement is only accepted by generateMultiShardingSQLs when the table has a single sub-table). A non-literal sharding value in "
+    "a batch was silently dropped on the pinned tree: repaired by fix commit a4cf690 (replay kept).",
+    "The surjectivity half ('every position of every statement is some input row') is carried by the prevRow/lastRow chain and closed by a "
+    "two-line induction that is not mechanised. Listed assumptions: every row has at least shardingColumnIndex+1 values (precheckInsertStmt "
+    "only checks the first row), p.rewriteStmts is empty on entry (NewInsertPlan). NOT under contract: generateMultiShardingSQLs pairs "
+    "statement m with indexes[m] through the RouteResult cursor (the cursor functions HasNext/Next/Reset are under contract in C04, the "
+    "rendering loop is read), handleInsertGlobalSequenceValue, the global-table branch (generateGlobalShardingSQLs delegates to "
+    "generateShardingSQLs, under contract in C04).",
+    "DESIGN.md section 4, C03")
+
 NA = {
  "C02": "not applicable to contract-based verification here: the oracle is the result of executing SQL on data (what one MySQL holding all shards would return); no contract within reach expresses an SQL execution semantics, and the rewriter is ~3k lines of visitors over TiDB AST types (DESIGN.md section 5)",
  "C06": "not applicable: the property compares a token pre-check with the decision of the yacc-generated parser; the specification is that parser (tables + hand-written lexer), which is outside the verifier's subset (DESIGN.md section 5)",
